@@ -962,7 +962,8 @@ func (i *BigInt) StrictEqualVal(other Value) Value {
 
 func rightBitshiftBigInt[T SimpleInt](i *BigInt, other T) Value {
 	if other < 0 {
-		return SmallInt(0).ToValue()
+		// a negative amount shifts in the opposite direction, as for SmallInt
+		return leftBitshiftBigInt(i, negatedShift(other))
 	}
 	iGo := i.ToGoBigInt()
 	result := ToElkBigInt((&big.Int{}).Rsh(iGo, uint(other)))
@@ -1087,9 +1088,15 @@ func (i *BigInt) RightBitshiftUInt8(other UInt8) Value {
 	return rightBitshiftBigInt(i, other)
 }
 
+// Returns the absolute value of a negative shift amount.
+func negatedShift[T SimpleInt](other T) UInt64 {
+	return UInt64(-(int64(other) + 1)) + 1
+}
+
 func leftBitshiftBigInt[T SimpleInt](i *BigInt, other T) Value {
 	if other < 0 {
-		return SmallInt(0).ToValue()
+		// a negative amount shifts in the opposite direction, as for SmallInt
+		return rightBitshiftBigInt(i, negatedShift(other))
 	}
 	iGo := i.ToGoBigInt()
 	return Ref(ToElkBigInt((&big.Int{}).Lsh(iGo, uint(other))))
